@@ -865,6 +865,10 @@ static carquet_status_t load_next_page_mmap(
 
     int32_t num_values = page_header.data_page_header.num_values;
     size_t value_size = get_value_size(reader->type, reader->type_length);
+    if (num_values < 0) {
+        CARQUET_SET_ERROR(error, CARQUET_ERROR_INVALID_PAGE, "Negative value count in page header");
+        return CARQUET_ERROR_INVALID_PAGE;
+    }
 
     /* Check if zero-copy is possible */
     bool zero_copy_eligible = carquet_page_is_zero_copy_eligible(
@@ -878,6 +882,13 @@ static carquet_status_t load_next_page_mmap(
 
     if (zero_copy_eligible && !has_levels) {
         /* ====== ZERO-COPY PATH ====== */
+
+        /* The view must lie inside the page */
+        if (value_size != 0 &&
+            (size_t)num_values > (size_t)page_header.compressed_page_size / value_size) {
+            CARQUET_SET_ERROR(error, CARQUET_ERROR_DECODE, "Page too small for its value count");
+            return CARQUET_ERROR_DECODE;
+        }
 
         /* Free previous owned buffer if any */
         if (reader->decoded_ownership == CARQUET_DATA_OWNED) {
@@ -895,6 +906,16 @@ static carquet_status_t load_next_page_mmap(
             reader->decoded_def_levels = malloc(sizeof(int16_t) * num_values);
             reader->decoded_rep_levels = malloc(sizeof(int16_t) * num_values);
             reader->decoded_capacity = num_values;
+            if (!reader->decoded_def_levels || !reader->decoded_rep_levels) {
+                free(reader->decoded_def_levels);
+                free(reader->decoded_rep_levels);
+                reader->decoded_def_levels = NULL;
+                reader->decoded_rep_levels = NULL;
+                reader->decoded_values = NULL;
+                reader->decoded_capacity = 0;
+                CARQUET_SET_ERROR(error, CARQUET_ERROR_OUT_OF_MEMORY, "Failed to allocate level buffers");
+                return CARQUET_ERROR_OUT_OF_MEMORY;
+            }
         }
 
         /* Zero-copy only happens when max_def_level == 0, so all levels are 0.
